@@ -252,7 +252,7 @@ Explains(r, m) ==
                         /\ r.k \in DOMAIN ref.steps /\ r.bits = ref.steps[r.k]
     \* scale clause: announces that the next exact instance is the previous one times 2^by
     [] r.e = "ScaleOf" -> /\ c # NoCfg /\ c.exact /\ r.cfg = c.id /\ lastX # << >> /\ lastX.cfg = c.id /\ data # NoData
-                          /\ IF r.mode = "data" THEN r.by \in 1..3 ELSE r.mode = "eff" /\ r.by \in -40..40 /\ r.by # 0
+                          /\ IF r.mode = "data" THEN r.by \in 1..3 ELSE r.mode = "eff" /\ r.by \in EffScaleDomain /\ r.by # 0
     [] r.e = "End" -> r.lines >= l - 1
     [] OTHER -> FALSE          \* Abort, ConfigureError, unknown lines
 
